@@ -386,13 +386,17 @@ Theorem translated_ansiterm_adapter_is_model : forall s, ad_src_ok s ->
 Proof.
   intros s (Hf & Hb & _ & _).
   unfold g_atc_to_ansi_term, atm_of_src, ad_s_get_fg, ad_s_get_bg, ad_s_get_eff. cbv zeta.
-  rewrite (atc_opt_colour _ Hf), (atc_opt_colour _ Hb), !adg_contains_bit.
+  rewrite (atc_opt_colour _ Hf), (atc_opt_colour _ Hb).
+  (* the effects: eight `if effects.contains(X) { style = style.x(); }`, or a filter over a private table of (effect,
+     method pointer) entries folded into the style -- the selection is computed entry by entry, which leaves the same
+     eight tests, on whatever bits the source names *)
+  repeat match goal with |- context [filter ?G (?x :: ?l)] => progress cbn [filter] end.
+  rewrite ?adg_contains_bit.
   change BOLD with 0; change DIMMED with 1; change ITALIC with 2; change UNDERLINE with 3;
     change BLINK with 8; change INVERT with 9; change HIDDEN with 10; change STRIKETHROUGH with 11.
   destruct (s_fg s) as [cf|], (s_bg s) as [cb|]; cbn [option_map];
     try (destruct (atm_conv_colour cf) as [fgc [|]]); try (destruct (atm_conv_colour cb) as [bgc bb]); cbn [fst];
-    destruct (N.testbit (s_eff s) 0), (N.testbit (s_eff s) 1), (N.testbit (s_eff s) 2), (N.testbit (s_eff s) 3),
-             (N.testbit (s_eff s) 8), (N.testbit (s_eff s) 9), (N.testbit (s_eff s) 10), (N.testbit (s_eff s) 11);
+    repeat match goal with |- context [N.testbit (s_eff s) ?k] => destruct (N.testbit (s_eff s) k) end;
     reflexivity.
 Qed.
 
